@@ -136,18 +136,25 @@ func TestC07a(t *testing.T) {
 		return
 	}
 
-	nMesh, nE, nSC, nVS, nFlag := meshQuick, exportToQuick, sidecarQuick, vsQuick, 1
+	nMesh, nE, nSC, nVS, nFlag := meshQuick, exportToQuick, sidecarQuick, vsQuick, 2
 	if env.Thorough() {
-		nMesh, nE, nSC, nVS, nFlag = len(meshForms), len(exportToValues), len(sidecarForms), len(vsForms), 2
+		nMesh, nE, nSC, nVS = len(meshForms), len(exportToValues), len(sidecarForms), len(vsForms)
 	}
+	// quick: the legacy namespace tie-break (flag 1) only under the default mesh settings and only
+	// with a VirtualService present (the flag is read nowhere else)
+	skip := func(idx []int) bool { return !env.Thorough() && idx[4] == 1 && idx[0] != 0 }
 	dims := []int{nMesh, nE, nE, nSC, nFlag}
 	res.Bounds["dims(mesh,e1,e2,sidecar,flag)"] = dims
 	res.Bounds["virtualservice_forms"] = nVS
 	res.Bounds["proxies"] = len(proxies)
-	res.Bounds["worlds_total"] = int64(nMesh*nE*nE*nSC*nFlag) * int64(nVS)
-	var worlds int64
+	res.Bounds["quick_restriction"] = "flag=1 (PILOT_SIDECAR_PICK_BEST_SERVICE_NAMESPACE=false) only with mesh defaults"
+	var worlds, fam int64
 	engine.Product(dims, func(ord int64, idx []int) bool {
-		if !env.Mine(ord) {
+		if skip(idx) {
+			return true
+		}
+		fam++
+		if !env.Mine(fam) {
 			return true
 		}
 		if env.Expired() {
